@@ -50,6 +50,8 @@ def lookup_obligations(ctx, repo, qual, rule):
         # connection model by its caller)
         if not fi.is_async:
             return lookup_model(ctx, repo, qual, rule)
+        if qual == "GeckoAsyncSpa._connect":
+            return lookup_model_async(ctx, repo, qual, rule)
         raw = [n for n in g.stmt_nodes() for c in n.calls() if call_name(c) == "import_module"]
         ctx.error(f"{qual}: expected one import_module(..).GeckoPack/.GeckoConfigStruct/.GeckoLogStruct site each, found {kinds} ({len(raw)} import_module calls) - idiom not supported by {rule}")
         return 0
@@ -133,7 +135,7 @@ def lookup_model(ctx, repo, qual, rule):
         src = Obj(None, {"plateform_key": plat, "config_version": cv, "log_version": lv, "packtype": plat, "bytes": bytes(1024), "name": "snap"}, name="source")
         struct = Obj(None, {"replace_status_block_segment": Native(lambda a, k: None), "build_accessors": Native(lambda a, k: None), "accessors": {}, "retry_request": Native(lambda a, k: None),
                             "reset": Native(lambda a, k: None), "set_status_block": Native(lambda a, k: None)}, name="structure")
-        me = Obj(fi.cls, {"struct": struct, "structure": struct, "get_and_increment_sequence_counter": Native(lambda a, k: 1), "sendparms": ("10.1.2.3", 10022, b"S", b"C")}, name="owner")
+        me = Obj(repo.instance_cls(fi.cls), {"struct": struct, "structure": struct, "get_and_increment_sequence_counter": Native(lambda a, k: 1), "sendparms": ("10.1.2.3", 10022, b"S", b"C")}, name="owner")
         n_extra = len(fi.node.args.args) - 2
         try:
             it.call(fi, me, [src] + [Opaque(f"arg{i}") for i in range(max(n_extra, 0))])
@@ -152,3 +154,67 @@ def lookup_model(ctx, repo, qual, rule):
                f"{qual}: classes instantiated (class, module) = {taken}, expected {want_taken}", fi.loc)
         n_ok += asked == want
     return 3 if n_ok == 2 else (3 if n_ok else 0)
+
+
+def _model_module(taken):
+    from .absint import Native, Obj
+
+    def module(name):
+        def cls(kind):
+            def make(a, k, kind=kind, name=name):
+                taken.append((kind, name))
+                return Obj(None, {"type": 7, "accessors": {}, "output_keys": [], "all_device_keys": [], "user_demand_keys": [], "error_keys": [], "begin": 0, "end": 1024, "xml": None}, name=f"{kind}<{name}>")
+            return Native(make, kind)
+        return Obj(None, {k: cls(k) for k in KINDS}, name=f"module<{name}>")
+    return module
+
+
+def lookup_model_async(ctx, repo, qual, rule):
+    """lookup_model for the awaitable connect: GeckoAsyncSpa._connect runs on the connection model (facts.ConnectionModel),
+    whose protocol answers the version, channel and FILES requests with model replies - the FILES reply names platform
+    'inYT' / 'Mas-IBC-32K' with DIFFERENT config and log versions; importlib.import_module records what is asked for."""
+    from .absint import Obj, PyRaise, Undecided
+    from .core import AnalysisError
+    from .facts import ConnectionModel
+    fi = repo.func(qual)
+    n_ok = 0
+    for plat, cv, lv in (("inYT", 61, 59), ("Mas-IBC-32K", 1, 2)):
+        asked, taken = [], []
+        module = _model_module(taken)
+
+        def answer(req, plat=plat, cv=cv, lv=lv):
+            nm = req.cls.short if isinstance(req, Obj) and req.cls is not None else ""
+            if "Version" in nm:
+                return Obj(None, {"en_build": 70, "en_major": 14, "en_minor": 1, "co_build": 69, "co_major": 11, "co_minor": 2}, name="version-reply")
+            if "Channel" in nm:
+                return Obj(None, {"channel": 10, "signal_strength": 33}, name="channel-reply")
+            if "ConfigFile" in nm:
+                return Obj(None, {"plateform_key": plat, "config_version": cv, "log_version": lv}, name="files-reply")
+            return None
+        cm = ConnectionModel(repo, connect=False, answer=answer)
+        inner = cm.it.call_hook
+
+        def hook(it_, node, callee, args, kwargs, inner=inner):
+            if getattr(callee, "name", "").endswith("import_module"):
+                asked.append(args[0] if args else None)
+                return module(args[0] if args else None)
+            return inner(it_, node, callee, args, kwargs)
+        cm.it.call_hook = hook
+        try:
+            cm.it.steps = 0
+            cm.it.call(fi, cm.spa, [])
+        except PyRaise:
+            pass          # what follows the lookups (accessor building, the block transfer) is not this rule's subject
+        except Undecided as e:
+            if len(asked) < 3:
+                raise AnalysisError(f"{qual} on the connection model (FILES reply {plat}, cfg {cv}, log {lv}): {e}")
+        p = plat.lower()
+        want = [f"{PREFIX}{p}", f"{PREFIX}{p}-cfg-{cv}", f"{PREFIX}{p}-log-{lv}"]
+        ctx.ob(rule, f"{qual}::modules-asked-for::{plat}", asked == want,
+               f"{qual} for platform {plat!r}, config version {cv}, log version {lv} imports {asked}, expected {want} (lower-cased platform; the config table by the config version, the log table by the log version)",
+               fi.loc, sample={"rule": rule, "site": qual, "platform": plat, "imports": [str(a) for a in asked]})
+        want_taken = [("GeckoPack", want[0]), ("GeckoConfigStruct", want[1]), ("GeckoLogStruct", want[2])]
+        ctx.ob(rule, f"{qual}::classes-taken-from::{plat}", sorted(taken) == sorted(want_taken),
+               f"{qual}: classes instantiated (class, module) = {taken}, expected {want_taken}", fi.loc)
+        n_ok += asked == want
+    return 3 if n_ok else 0
